@@ -26,14 +26,13 @@ structure KeysNodup (s : FSA V L) : Prop where
   innRow : ∀ v row, s.inn.get? v = some row → row.keys.Nodup
 
 /-- **Coherence of the three views.**  Same vertex set in the label view and the outgoing view
-(the incoming view creates its rows lazily, so it may lack rows of vertices without incoming
-edges); the outgoing and incoming views hold the same entry for every ordered pair; a label is in
+and the incoming view (a row per vertex from construction on, as repaired); the outgoing and incoming views hold the same entry for every ordered pair; a label is in
 the entry `v → w` exactly when the label view sends `(v, label)` to `w`; no label is listed twice;
 every target is a vertex. -/
 structure Coherent (s : FSA V L) : Prop where
   keys : KeysNodup s
   verts : ∀ v, v ∈ s.graph.keys ↔ v ∈ s.out.keys
-  innVerts : ∀ v, v ∈ s.inn.keys → v ∈ s.out.keys
+  innVerts : ∀ v, v ∈ s.inn.keys ↔ v ∈ s.out.keys
   io : ∀ v w, s.og v w = s.ig w v
   label : ∀ v l w, s.step v l = some w ↔ ∃ ls, s.og v w = some ls ∧ l ∈ ls
   nodup : ∀ v w ls, s.og v w = some ls → ls.Nodup
@@ -166,7 +165,7 @@ def Pre (m : SetFSA V L) : Op V L → Prop
   | .rename f => (∀ v l w, m.edges v l w → ∃ l', f.get? l = some l') ∧
       (∀ v l₁ w₁ l₂ w₂ l', m.edges v l₁ w₁ → m.edges v l₂ w₂ → f.get? l₁ = some l' → f.get? l₂ = some l' → l₁ = l₂)
   | .copy => True
-  | .hasEdge t h => ∃ l, m.edges t l h      -- the query is asked about an existing edge
+  | .hasEdge t _ => m.verts t               -- the tail is a vertex (else `KeyError`)
 
 /-- every operation of the history meets its precondition in the state it is applied to -/
 def HistOK : SetFSA V L → List (Op V L) → Prop
